@@ -66,7 +66,39 @@ def run(model, col, tier):
                   f"`{unparse(rv)[:60]}` is reached only when no per-argument score is negative",
                   f"`{unparse(rv)[:80]}` adds up per-argument scores that may be the -1 sentinel: an incompatible argument (-1) and a conversion (+1) cancel to 0, "
                   "the score of an exact match, so a non-viable overload can win", TYPES, rv)
-    col.floor("R10.1", "score-aggregating return paths of Function.Match", agg_paths, 1)
+    # every call of the sentinel-returning Match(): its result must be sign-tested on its own before it takes part in arithmetic
+    parents = {}
+    for n in ast.walk(fm):
+        for ch in ast.iter_child_nodes(n):
+            parents[ch] = n
+    nsites = 0
+    for c in ast.walk(fm):
+        if not (isinstance(c, ast.Call) and isinstance(c.func, ast.Name) and c.func.id == "Match"):
+            continue
+        nsites += 1
+        p = parents.get(c)
+        ck = f"{TYPES}::Function.Match sentinel of Match() is tested before arithmetic"
+        if isinstance(p, (ast.BinOp, ast.AugAssign)) or (isinstance(p, ast.Call) and dotted(p.func) in ("sum", "min", "max")):
+            col.bad("R10.1", ck, f"`{unparse(p)[:70]}` puts the score of one argument straight into arithmetic: a -1 ('not convertible') can be cancelled by the +1 of a conversion "
+                    "before any sign test sees it (a test on the running total is not a test on the argument)", TYPES, p)
+        elif isinstance(p, (ast.ListComp, ast.GeneratorExp)):
+            gp = parents.get(p)
+            if isinstance(gp, ast.Call) and dotted(gp.func) in ("sum", "min", "max"):
+                col.bad("R10.1", ck, f"`{unparse(gp)[:70]}` aggregates per-argument scores without a sign test on the individual scores", TYPES, gp)
+            else:
+                col.ok("R10.1", ck + " [collected]", "scores are collected first (the aggregate is guarded, see above)")
+        elif isinstance(p, ast.Assign) and isinstance(p.targets[0], ast.Name):
+            s = p.targets[0].id
+            tested = [n for n in ast.walk(fm) if isinstance(n, ast.If) and isinstance(n.test, ast.Compare) and isinstance(n.test.left, ast.Name) and n.test.left.id == s
+                      and isinstance(n.test.ops[0], (ast.Lt, ast.LtE, ast.Eq)) and n.lineno > p.lineno
+                      and any(isinstance(x, ast.Return) and isinstance(x.value, ast.UnaryOp) for x in ast.walk(n))]
+            arith = [n for n in ast.walk(fm) if isinstance(n, (ast.AugAssign, ast.BinOp)) and s in {x.id for x in ast.walk(n) if isinstance(x, ast.Name)} and n.lineno > p.lineno]
+            good = bool(tested) and all(t.lineno < a.lineno for t in tested[:1] for a in arith)
+            col.check(good, "R10.1", ck, f"`{s}` is compared with 0 (and the candidate rejected) before it is added up",
+                      f"`{s}` = Match(...) takes part in arithmetic without a preceding sign test on `{s}` itself", TYPES, p)
+        else:
+            col.bad("R10.1", ck, f"unrecognised use of the sentinel-returning Match(): `{unparse(p)[:70]}`", TYPES, p)
+    col.floor("R10.1", "Match() call sites in Function.Match", nsites, 1)
     mcalls = [c for c in ast.walk(fm) if isinstance(c, ast.Call) and isinstance(c.func, ast.Name) and c.func.id == "Match"]
     zips = [c for c in ast.walk(fm) if isinstance(c, ast.Call) and dotted(c.func) == "zip"]
     okz = bool(zips) and len(zips[0].args) == 2 and unparse(zips[0].args[0]) == fm.args.args[1].arg and "rgumentTypes" in unparse(zips[0].args[1])
